@@ -230,6 +230,15 @@ def check_history(beh):
             if hasattr(o, "TM") and near_pi(o.TM):
                 tainted = True
     final = [{"taa": tup(s["taa"]), "tm": tup(s["tm"])} for s in beh["s"]]
+    # ... and on the specification side: any (intermediate) matrix term within 3e-5 of a half turn
+    for slot in (1, 2):
+        try:
+            ev.mat(final[slot - 1]["tm"])
+        except Exception:
+            pass
+    for v in list(ev.memo.values()):
+        if getattr(v, "shape", None) == (4, 4) and rf.rot_angle(v[:3, :3]) > PI - 3e-5:
+            tainted = True
     tags = ["log_near_pi"] if tainted else []
     for slot in (1, 2):
         o = objs[slot]
